@@ -145,7 +145,7 @@ class Solver(object):
             self.kill()
 
 
-_val_re = re.compile(r'\(\s*([^\s()]+)\s+((?:#x[0-9a-fA-F]+)|(?:#b[01]+)|true|false|\(fp\s+#b[01]\s+#b[01]+\s+#b[01]+\)|\(_\s+[+-]?(?:zero|oo|NaN)\s+\d+\s+\d+\)|\(_\s+bv\d+\s+\d+\))\s*\)')
+_val_re = re.compile(r'\(\s*([^\s()]+)\s+((?:#x[0-9a-fA-F]+)|(?:#b[01]+)|true|false|\(fp\s+#[bx][0-9a-fA-F]+\s+#[bx][0-9a-fA-F]+\s+#[bx][0-9a-fA-F]+\)|\(_\s+[+-]?(?:zero|oo|NaN)\s+\d+\s+\d+\)|\(_\s+bv\d+\s+\d+\))\s*\)')
 
 
 def parse_values(txt):
@@ -162,7 +162,10 @@ def parse_values(txt):
             out[nm] = int(v[2:], 2)
         elif v.startswith('(fp'):
             parts = v.strip('()').split()
-            bits = parts[1][2:] + parts[2][2:] + parts[3][2:]
+
+            def tobits(p):
+                return p[2:] if p[1] == 'b' else format(int(p[2:], 16), '0%db' % (4 * (len(p) - 2)))
+            bits = tobits(parts[1]) + tobits(parts[2]) + tobits(parts[3])
             out[nm] = ('F', int(bits, 2))
         elif v.startswith('(_ bv'):
             out[nm] = int(v.split()[1][2:])
